@@ -321,11 +321,13 @@ impl Attributes {
                 anyhow::bail!("doc attribute for `{path}` must be a string literal");
             };
 
-            let doc = doc.get_or_insert_with(String::new);
-            if !doc.is_empty() {
-                doc.push('\n');
+            match &mut doc {
+                None => doc = Some(value.to_string()),
+                Some(doc) => {
+                    doc.push('\n');
+                    doc.push_str(value);
+                }
             }
-            doc.push_str(value);
         }
         Ok(doc)
     }
